@@ -270,6 +270,63 @@ def run_rules(rep, repo):
     for r in parsed:
         scan(r['t'], r)
 
+    # ---- R6: the remainder of the input is always forwarded
+    R6 = rep.rule('C19/R6', 'the muncher never drops the rest of its input: every rule whose matcher ends in `$($rest:tt)*` ends its transcriber with '
+                  'exactly one continuation `toml_internal!(@state .. $($rest)*)` carrying that remainder as its last tokens', floor=47)
+
+    def muncher_calls(ts):
+        ts = list(ts)
+        out = []
+        for i, e in enumerate(ts):
+            if e == ('lit', 'toml_internal') and i + 2 < len(ts) and ts[i + 1] == ('lit', '!') and ts[i + 2][0] == 'g':
+                out.append(ts[i + 2])
+        return out
+    for idx, r in enumerate(parsed):
+        m = r['m']
+        if not m or not is_rest(m[-1]):
+            continue
+        rest = m[-1][1][0][1]
+        calls = muncher_calls(r['t'])
+        # also inside a `{ .. }` wrapper (rules written with double braces)
+        for e in r['t']:
+            if e[0] == 'g' and e[1] == '{':
+                calls += muncher_calls(e[2])
+        carrying = [c for c in calls if c[2] and c[2][-1] == ('rep', (('var', rest),))]
+        mention = [c for c in calls if any(x == ('rep', (('var', rest),)) for x in c[2])]
+        ok = len(carrying) == 1 and len(mention) == 1 and bool(calls) and calls[-1] is carrying[0]
+        rep.check(R6, f'@{r["state"]}#{idx}|rest', ok, f'continues with $(${rest})*',
+                  f'the rule at line {r["line"]} matches `$(${rest}:tt)*` but ' + ('does not pass it on to the continuation' if not carrying else 'passes it on more than once or not last') +
+                  ': everything after this construct is silently dropped (or duplicated)', f'{file}:{r["line"]}')
+    # ---- R7: the key path handed to the run-time helpers is header path, then key segments
+    R7 = rep.rule('C19/R7', 'insertion path = header context followed by the key: in every rule that carries the current header `[$($path)*]` and inserts a '
+                  'key, the slice given to insert_toml starts with `$($path)*` and continues with the key segments', floor=2)
+    for idx, r in enumerate(parsed):
+        m = r['m']
+        pvar = None
+        for e in m:
+            if e[0] == 'g' and e[1] == '[' and len(e[2]) == 1 and is_rest(e[2][0]):
+                pvar = e[2][0][1][0][1]
+        if pvar is None or ('lit', '=') not in m:
+            continue
+        ts = list(r['t'])
+        for e in r['t']:
+            if e[0] == 'g' and e[1] == '{':
+                ts += list(e[2])
+        for i, e in enumerate(ts):
+            if e == ('lit', 'insert_toml') and i + 1 < len(ts) and ts[i + 1][0] == 'g':
+                args = list(ts[i + 1][2])
+                slices = [a for j, a in enumerate(args) if a[0] == 'g' and a[1] == '[' and j > 0 and args[j - 1] == ('lit', '&')]
+                if not slices:
+                    rep.bad(R7, f'@{r["state"]}#{idx}|slice', 'insert_toml without a `&[..]` path', f'{file}:{r["line"]}')
+                    continue
+                sl = list(slices[0][2])
+                first_ok = bool(sl) and sl[0] == ('rep', (('var', pvar),))
+                rest_has_key = any(x[0] == 'rep' and x != ('rep', (('var', pvar),)) for x in sl[1:])
+                once = sum(1 for x in sl if x == ('rep', (('var', pvar),))) == 1
+                rep.check(R7, f'@{r["state"]}#{idx}|slice', first_ok and rest_has_key and once, f'&[$(${pvar})* <key segments>]',
+                          f'the rule at line {r["line"]} builds the insertion path as `{render_t(sl)[:90]}`: not header path followed by key segments, so under a '
+                          f'`[header]` the value lands at a different place than the parser puts it', f'{file}:{r["line"]}')
+
 
 def flatten_all(ts):
     for e in ts:
